@@ -1,9 +1,18 @@
 package harness
 
-import "github.com/ipld/go-storethehash/store/types"
+import (
+	"fmt"
+	"sort"
 
-// Ledger records which primary locations stopped being current (C13); the
-// comparison with what the store recorded on its freelist is in ledger_check.go.
+	"github.com/ipld/go-storethehash/store/types"
+	"github.com/ipld/go-storethehash/verifshim/vos"
+)
+
+// Ledger is the freed-location oracle of C13. The harness tells it every
+// primary location that stopped being current (and why); Check compares that
+// with what the store actually recorded on its freelist, read from the MemFS
+// mutation log (every byte ever appended to the freelist file, every batch
+// handed to the primary GC) plus the unflushed pool.
 type Ledger struct {
 	expected []freed
 }
@@ -18,3 +27,159 @@ func (l *Ledger) superseded(loc types.Block, why string) {
 }
 
 func (l *Ledger) noFree(string) {}
+
+type flEntry struct {
+	Off  uint64
+	Size uint32
+}
+
+// freelistHistory scans the mutation log and returns every entry ever
+// appended to the freelist file and the batches presented to the primary GC
+// (content of the .gc file at the moment it was removed).
+func freelistHistory(fs *vos.MemFS) (recorded []flEntry, batches [][]flEntry, partial bool) {
+	flName := idxPath + ".free"
+	gcName := flName + ".gc"
+	content := map[int][]byte{} // by inode
+	names := map[string]int{}
+	if base := fs.Base(); base != nil {
+		for p, id := range base.Inos {
+			if p == flName || p == gcName {
+				names[p] = id
+				content[id] = append([]byte(nil), base.Files[p]...)
+			}
+		}
+	}
+	if id, ok := names[flName]; ok {
+		ents, full := parseFL(content[id])
+		recorded = append(recorded, ents...)
+		partial = partial || !full
+	}
+	if id, ok := names[gcName]; ok {
+		ents, full := parseFL(content[id])
+		recorded = append(recorded, ents...)
+		partial = partial || !full
+	}
+	for _, m := range fs.Log() {
+		switch m.Kind {
+		case vos.MCreate:
+			if m.Path == flName || m.Path == gcName {
+				names[m.Path] = m.Ino
+				content[m.Ino] = nil
+			}
+		case vos.MWrite:
+			if _, ok := content[m.Ino]; ok {
+				c := content[m.Ino]
+				end := int(m.Off) + len(m.Data)
+				for len(c) < end {
+					c = append(c, 0)
+				}
+				copy(c[m.Off:], m.Data)
+				content[m.Ino] = c
+				ents, full := parseFL(m.Data)
+				recorded = append(recorded, ents...)
+				partial = partial || !full
+			}
+		case vos.MTrunc:
+			if c, ok := content[m.Ino]; ok && int64(len(c)) > m.Size {
+				content[m.Ino] = c[:m.Size]
+			}
+		case vos.MRename:
+			if id, ok := names[m.Path]; ok {
+				delete(names, m.Path)
+				if m.Path2 == flName || m.Path2 == gcName {
+					names[m.Path2] = id
+				}
+			}
+		case vos.MRemove:
+			if id, ok := names[m.Path]; ok {
+				if m.Path == gcName {
+					ents, _ := parseFL(content[id])
+					batches = append(batches, ents)
+				}
+				delete(names, m.Path)
+			}
+		}
+	}
+	return recorded, batches, partial
+}
+
+func parseFL(data []byte) ([]flEntry, bool) {
+	ents, full := parseFreeList(data)
+	out := make([]flEntry, len(ents))
+	for i, e := range ents {
+		out[i] = flEntry{e.Off, e.Size}
+	}
+	return out, full
+}
+
+// Check compares recorded with expected. current lists the locations that are
+// current now. gcComplete says a primary GC cycle ran after everything was
+// flushed, so every recorded entry must have been presented exactly once.
+func (l *Ledger) Check(w *World, gcComplete bool) *Violation {
+	recorded, batches, partial := freelistHistory(w.FS)
+	if partial {
+		return violO("ledger", "ledger:spurious", "freelist file received a write that is not a whole number of 12-byte entries")
+	}
+	for _, b := range w.S.VerifFreelist().VerifPool() {
+		recorded = append(recorded, flEntry{uint64(b.Offset), uint32(b.Size)})
+	}
+	exp := map[flEntry]int{}
+	why := map[flEntry]string{}
+	for _, f := range l.expected {
+		e := flEntry{uint64(f.loc.Offset), uint32(f.loc.Size)}
+		exp[e]++
+		why[e] = f.why
+	}
+	rec := map[flEntry]int{}
+	for _, e := range recorded {
+		rec[e]++
+	}
+	keys := make([]flEntry, 0, len(exp)+len(rec))
+	for e := range exp {
+		keys = append(keys, e)
+	}
+	for e := range rec {
+		if _, ok := exp[e]; !ok {
+			keys = append(keys, e)
+		}
+	}
+	sort.Slice(keys, func(i, j int) bool { return keys[i].Off < keys[j].Off })
+	for _, e := range keys {
+		switch {
+		case rec[e] < exp[e]:
+			return violO("ledger", "ledger:missing", "location %d (size %d) stopped being current (%s) %d time(s) but was recorded on the freelist %d time(s)", e.Off, e.Size, why[e], exp[e], rec[e])
+		case exp[e] == 0:
+			return violO("ledger", "ledger:spurious", "location %d (size %d) was recorded on the freelist although it never stopped being current", e.Off, e.Size)
+		case rec[e] > exp[e]:
+			return violO("ledger", "ledger:double", "location %d (size %d) (%s) was recorded on the freelist %d times", e.Off, e.Size, why[e], rec[e])
+		}
+	}
+	cur := w.locateAll()
+	for d, b := range cur {
+		e := flEntry{uint64(b.Offset), uint32(b.Size)}
+		if rec[e] > 0 {
+			return violO("ledger", "ledger:premature", "location %d of present key %x is recorded on the freelist", e.Off, d)
+		}
+	}
+	presented := map[flEntry]int{}
+	for _, b := range batches {
+		for _, e := range b {
+			presented[e]++
+		}
+	}
+	for e, n := range presented {
+		if n > rec[e] {
+			return violO("ledger", "ledger:double", "location %d was presented to the primary GC %d times but recorded %d time(s)", e.Off, n, rec[e])
+		}
+	}
+	if gcComplete {
+		for e, n := range rec {
+			if presented[e] != n {
+				return violO("ledger", "ledger:missing", "location %d (%s) was recorded %d time(s) but presented to the primary GC %d time(s) after a complete cycle", e.Off, why[e], n, presented[e])
+			}
+		}
+	}
+	return nil
+}
+
+func (l *Ledger) String() string { return fmt.Sprintf("%d expected frees", len(l.expected)) }
